@@ -45,7 +45,7 @@ def gen_op(r: random.Random, model: A.Model, *, scoped_bias=0.15, failing_bias=0
     values = SINGLE_LINE_VALUES if single_line else VALUES
     value = r.choice(values) if op == "set" else None
     x = r.random()
-    fresh_names = ["new", "extra", "zz", "foo-bar", "x.y", "n1", "added", "q"]
+    fresh_names = ["new", "extra", "zz", "foo-bar", "x.y", "n1", "added", "q", "user@host"]
     cls = None
     S = None
     if x < failing_bias:
